@@ -173,6 +173,12 @@ def run(ctx):
                 for v in part[:: max(1, part.size // 16)]:
                     H[h].hedge(float(v))
                     H[h].hedge(np.array(v))
+                H[h].hedge([0.0, 0.25, 0.5, 1.0])  # a plain list
+                H[h].hedge(0)
+                H[h].hedge(1)  # Python ints
+                H[h].hedge(part[:1])  # a batch of one
+                H[h].hedge(part[:8].astype(np.float32))
+                H[h].hedge(part[:6].reshape(2, 3))
             inverse_pairs(ctx, fl, part)
             ctx.sample("grid", {"grid": f"k/2^{m}, chunk {i} of {nchunk}", "neighbours_of_0.5": nb, "very(0.25)": float(H["very"].hedge(0.25)), "seldom(0.5)": float(H["seldom"].hedge(0.5))})
         nr = ctx.scale(4, 64)
